@@ -4,7 +4,7 @@
 # the patch is applied to the copy and the checks are run from the copy (path dependencies rewritten).
 # The scratch directory (with its build output) is removed by `tools/mutate_scratch.sh --clean`.
 set -u
-S=/root/verif-scratch
+S=/root/verif-scratch-m
 if [ "${1:-}" = "--clean" ]; then rm -rf $S; exit 0; fi
 patch=$(realpath "$1"); shift
 mkdir -p $S
